@@ -53,6 +53,7 @@ type Scenario struct {
 	PreCancel   bool    `json:"precancel,omitempty"`   // the context is already cancelled when the stage is created
 	Repeat      int     `json:"repeat,omitempty"`      // execute the scenario this many times (samples scheduler-owned overlaps)
 	CancelAtEnd bool    `json:"cancelAtEnd,omitempty"` // free-running tier: the producer starts a goroutine that cancels, sends the last element and closes the input, without yielding in between
+	PrefillAll  bool    `json:"prefillAll,omitempty"`  // every input buffer is filled before the stage is created
 	Deadline    bool    `json:"deadline,omitempty"`    // the context ends by a deadline (Err() == context.DeadlineExceeded), not by an explicit cancel
 	Twin        bool    `json:"twin,omitempty"`        // a second, independent instance of the same stage runs alongside on its own input and context
 	Par         int     `json:"par,omitempty"`         // fork stages: number of workers
